@@ -51,7 +51,7 @@ def write_project(d, R, edges, roots):
                 if a != u: continue
                 if kind == 'dep': deps.append('            - %s' % pname(b))
                 elif kind == 'tool':
-                    deps.append('            - name: %s\n              use: [tools]' % pname(b)); tools.append('t-' + pname(b))
+                    deps.append('            - name: %s\n              use: [tools]' % pname(b)); tools += ['t-' + pname(b), 'u-' + pname(b)]
                 else:
                     # first in the list and forwarded: the following dependencies of this variant are built inside the sandbox
                     deps.insert(0, '            - name: %s\n              use: [sandbox]\n              forward: True' % pname(b))
@@ -60,7 +60,8 @@ def write_project(d, R, edges, roots):
             lines.append('        buildVars: [BV]\n        environment: {BV: "%s"}' % pname(u))
             lines.append('        buildScript: |\n            echo build-%s "$@"' % pname(u))
             lines.append('        packageScript: |\n            echo pkg-%s' % pname(u))
-            lines.append('        provideTools:\n            t-%s: "bin"' % pname(u))
+            # two tools with different path / library directories from one provider
+            lines.append('        provideTools:\n            t-%s: "bin"\n            u-%s:\n                path: "sbin"\n                libs: ["lib"]' % (pname(u), pname(u)))
             lines.append('        provideSandbox:\n            paths: ["/bin"]')
         with open(os.path.join(d, 'recipes', 'r%d.yaml' % r), 'w') as f: f.write('\n'.join(lines) + '\n')
     with open(os.path.join(d, 'recipes', 'top.yaml'), 'w') as f:
